@@ -107,6 +107,12 @@ func main() {
 			}
 			atts = append(atts, attempt{via, u, "pw", 200})
 		}
+		// domains that differ only by letter case, and domains that collide only under Unicode case folding (U+212A KELVIN
+		// SIGN, U+0130, U+017F LONG S): the second of each pair is another address and must not open the first one's store
+		for _, u := range []string{"alice@kite.org", "alice@\u212aite.org", "bob@ix.org", "bob@\u0130x.org", "carol@sos.org", "carol@\u017fos.org",
+			"dave@Example.COM", "dave@example.com", "K@kite.org", "\u212a@kite.org"} {
+			atts = append(atts, attempt{"plain", u, "pw", 200})
+		}
 		n := 400
 		if o.Thorough {
 			n = 12000
@@ -182,14 +188,14 @@ func main() {
 				c.Cmd("CREATE " + name)
 				u, d := owner(w, name)
 				b := strings.Fields(m[1])
-				if len(b) == 2 && (u != hx.UnH(b[0]) || d != hx.UnH(b[1])) {
+				if len(b) == 2 && (u != hx.UnH(b[0]) || !sameDomain(d, hx.UnH(b[1]))) {
 					viol("broken-correspondence", fmt.Sprintf("session bound to store of %q@%q, model binding %q@%q", u, d, hx.UnH(b[0]), hx.UnH(b[1])))
 				}
 				// and that is the address the backend verified (C04.2 on the real observations)
 				bodies := w.Backend.Bodies
 				if len(bodies) == 1 {
 					var got struct{ Email, Password string }
-					if json.Unmarshal([]byte(bodies[0]), &got) == nil && got.Email != u+"@"+d {
+					if json.Unmarshal([]byte(bodies[0]), &got) == nil && !sameAddress(got.Email, u+"@"+d) {
 						viol("impl-violation", fmt.Sprintf("the backend verified %q but the session is bound to the store of %q", got.Email, u+"@"+d))
 					}
 				}
@@ -287,6 +293,35 @@ func parse(ls []string) []attempt {
 }
 
 // owner finds the user whose store holds the mailbox.
+// sameDomain: domains are compared without regard to the case of ASCII letters (RFC 5321 2.4) and octet by octet otherwise:
+// a server that files user@Example.COM with user@example.com is right, one that folds U+212A to "k" is not
+func sameDomain(a, b string) bool {
+	if len(a) != len(b) {
+		return false
+	}
+	for i := 0; i < len(a); i++ {
+		x, y := a[i], b[i]
+		if x >= 'A' && x <= 'Z' {
+			x += 'a' - 'A'
+		}
+		if y >= 'A' && y <= 'Z' {
+			y += 'a' - 'A'
+		}
+		if x != y {
+			return false
+		}
+	}
+	return true
+}
+
+func sameAddress(a, b string) bool {
+	i, j := strings.LastIndexByte(a, '@'), strings.LastIndexByte(b, '@')
+	if i < 0 || j < 0 {
+		return a == b
+	}
+	return a[:i] == b[:j] && sameDomain(a[i+1:], b[j+1:])
+}
+
 func owner(w *world.World, mailbox string) (string, string) {
 	shared := w.Mgr.GetSharedDB()
 	rows, err := shared.Query("SELECT u.id, u.username, d.domain FROM users u JOIN domains d ON d.id = u.domain_id")
